@@ -96,7 +96,7 @@ GoodDef(c) ==
     [] c = "n64"  -> NumSmall \cup {"nM32", "nP32", "nM63"}
     [] c = "mseq" -> NumNz \cup {"nM32", "nP32", "nM63"}
     [] c = "set"  -> SetGood
-    [] c = "str"  -> StrGood
+    [] c = "str"  -> StrGood \ {"qEmpty", "lit0"}      \* an empty type / parameter name / encoding: nothing demanded
     [] c = "nstr" -> StrGood \cup {"NIL"}
     [] c = "astr" -> StrGood \cup {"aBox", "aRoot"}
     [] c = "mbox" -> MboxGood
@@ -331,6 +331,12 @@ Bases ==
     B("unsol", "unsol.metadata", Un(J(<<F("METADATA"), V("mbox", "qInbox"), F("aEntry"), F("qEntry2")>>))),
     B("unsol", "unsol.list",     Un(ListOf(P(V("attr", "fHasNoChildren")), F("qSlash"), V("mbox", "INBOX")))),
     B("unsol", "unsol.status",   Un(J(<<F("STATUS"), V("mbox", "aBox"), StatusItems>>))),
+  \* unsolicited data, no unilateral data handler installed (the client discards it itself)
+    BN("bare", "bare.fetch.flags", Un(Fetch("n1", <<F("FLAGS"), Flags1>>))),
+    BN("bare", "bare.fetch.sec",   Un(Fetch("n1", <<F("UID"), V("uid", "n7"), Sec(<<>>), V("nstr", "lit3")>>))),
+    BN("bare", "bare.fetch.bs",    Un(Fetch("n2", <<F("BODYSTRUCTURE"), TextBody0>>))),
+    BN("bare", "bare.expunge",     Un(J(<<V("seq", "n1"), F("EXPUNGE")>>))),
+    BN("bare", "bare.exists",      Un(J(<<V("n32", "n3"), F("EXISTS")>>))),
   \* tagged completions (NOOP pending)
     B("tagged", "tagged.ok",     Tgd(StatusOf("OK", <<>>, "TXT"))),
     BS("tagged", "tagged.no", "NO",   Tgd(StatusOf("NO", <<>>, "TXT2"))),
@@ -517,10 +523,11 @@ TargetSeq(c) ==
   ELSE IF c \in {"lp", "lpi"} THEN <<"Nlp_10", "Nlp_999", "Nlp_1000", "Nlp_1001">>
   ELSE <<>>
 \* '('^d far beyond the cap, in every slot that opens a list or body; in the quick tier
-\* a quarter-stride sample of the slots (an unbounded-recursion probe is always part of
+\* a sample of the slots (every 4th in the thorough tier: each such line at a body slot costs the
+\* real client tens of seconds) (an unbounded-recursion probe is always part of
 \* the harness' resource families)
 DeepSeq(c) == IF c \in {"lp", "lpi"} THEN <<"Nlp_100000", "Nlp_1000000">> ELSE <<>>
-DeepStride == IF Stride < 8 THEN 1 ELSE Stride \div 8
+DeepStride == IF Stride = 1 THEN 4 ELSE Stride \div 2
 KeepDeep(bi, i) == DeepStride = 1 \/ ((bi * 131 + i * 31) % DeepStride) = (Seed % DeepStride)
 
 Drop(s, i)   == SubSeq(s, 1, i - 1) \o SubSeq(s, i + 1, Len(s))
@@ -637,7 +644,7 @@ BasesDeliver == (phase = "done" /\ mut[1].op = "none") => (cls.c = "D" /\ Bases[
 UsedTokens  == UNION {{Bases[i].toks[j].t : j \in 1..Len(Bases[i].toks)} : i \in 1..NB}
 UsedClasses == UNION {{Bases[i].toks[j].s : j \in 1..Len(Bases[i].toks)} : i \in 1..NB}
 RequiredKinds ==
-  {"greeting", "unsol", "tagged", "select", "capability", "enable", "login", "list", "liststatus", "status",
+  {"greeting", "unsol", "bare", "tagged", "select", "capability", "enable", "login", "list", "liststatus", "status",
    "search", "uidsearch", "esearch", "uidesearch", "sort", "uidsort", "thread", "getquota", "getquotaroot",
    "getmetadata", "namespace", "fetch", "uidfetch", "store", "expunge", "copy", "move", "append", "appendsync"}
 RequiredTokens ==
